@@ -35,6 +35,7 @@ type hline struct{ name, val string }
 
 // flight is the request between O's transport and D's handler.
 type flight struct {
+	chunked bool // the body travels without a declared length (chunked transfer coding)
 	orig      *http.Request // as handed to the RoundTripper (body consumed)
 	origURI   string
 	method    string
@@ -111,6 +112,18 @@ func (f *flight) materialise(wire bool) (*http.Request, error) {
 			fmt.Fprintf(&buf, "%s: %s\r\n", h.name, h.val)
 		}
 		sent := f.body
+		if f.chunked && f.errAfter < 0 {
+			// the same bytes, framed as two chunks and the terminating one
+			buf.WriteString("Transfer-Encoding: chunked\r\n\r\n")
+			cut := len(f.body) / 2
+			for _, part := range [][]byte{f.body[:cut], f.body[cut:]} {
+				if len(part) > 0 {
+					fmt.Fprintf(&buf, "%x\r\n%s\r\n", len(part), part)
+				}
+			}
+			buf.WriteString("0\r\n\r\n")
+			return http.ReadRequest(bufio.NewReader(&buf))
+		}
 		if f.hasBody || len(f.body) > 0 {
 			fmt.Fprintf(&buf, "Content-Length: %d\r\n", len(f.body))
 			if f.errAfter >= 0 && f.errAfter < len(f.body) {
@@ -156,6 +169,12 @@ func (f *flight) materialise(wire bool) (*http.Request, error) {
 	default:
 		req.Body = http.NoBody // a server never hands a nil Body to a handler
 		req.ContentLength = 0
+	}
+	if f.chunked && f.errAfter < 0 && (f.hasBody || len(f.body) > 0) {
+		// what a server hands its handler for a chunked (or HTTP/2 without
+		// content-length) request: length unknown
+		req.ContentLength = -1
+		req.TransferEncoding = []string{"chunked"}
 	}
 	return req, nil
 }
@@ -288,7 +307,7 @@ type env struct {
 func (f *flight) applyBenign(e *env) bool {
 	t := e.t
 	for try := 0; try < 4; try++ {
-		switch k := (t.Intn(8) + try) % 8; k {
+		switch k := (t.Intn(9) + try) % 9; k {
 		case 0: // extra unrelated header
 			h := sim.Pick(t, []hline{{"X-Forwarded-For", "203.0.113.7"}, {"Via", "1.1 proxy.example"}, {"X-Request-Id", "abc123"}, {"Accept", "*/*"}, {"Cookie", "a=b"}})
 			f.insertHdr(t.Intn(len(f.hdr)+1), h)
@@ -338,6 +357,13 @@ func (f *flight) applyBenign(e *env) bool {
 				f.hdr[i], f.hdr[j] = f.hdr[j], f.hdr[i]
 			}
 			f.add(mark{class: benign, kind: "header_order"})
+			return true
+		case 5: // the body framed without a declared length: HTTP framing is not among the things signed
+			if f.chunked || f.errAfter >= 0 || !(f.hasBody || len(f.body) > 0) {
+				continue
+			}
+			f.chunked = true
+			f.add(mark{class: benign, kind: "body_chunked"})
 			return true
 		default: // whitespace the credentials grammar allows
 			if f.xmTouched {
